@@ -32,6 +32,10 @@ def eval_program(arg) -> dict:
         prog.enc['requires'] = {'sts': 'NONE', 'mts': 'ALL'}
         if not prog.enc.get('multiclient'):
             prog.enc['provides'] = {'sts': 'NONE', 'mts': 'ALL'}
+    if stream % 4 == 3 and not prog.enc.get('multiclient'):
+        # ... and a shell without any rerouted port must still validate the facilities
+        prog.enc['provides'] = {'sts': 'ALL', 'mts': 'NONE'}
+        prog.enc['requires'] = {'sts': 'ALL', 'mts': 'NONE'}
     case['cfg'] = prog.enc
     out = {'violations': [], 'counts': {}}
     flavor = 'asan'
